@@ -3,6 +3,7 @@ From Coq Require Import String ZArith List.
 From NX Require Import Bytes PyStruct Utf8 StreamTypes Rn53 Stream Stream_proofs Stream_values Utf8_proofs
   Pinned_parse Pinned_iparse.
 From NX Require Gen_types.
+From NX Require PyLite Src_all Src_serialframe_proofs Src_stream_proofs Src_stream_model Src_stream_dev.
 Open Scope list_scope.
 Open Scope Z_scope.
 
@@ -127,6 +128,55 @@ Theorem C04_none : forall lay user chb ch mb,
     (mkW chb [] mb (mkSample (l_chan ch) 0 0 (l_mlen ch) [] (meta_vals (l_mlen ch) mb))).
 Proof. exact none_sample_ok. Qed.
 
+(** ** Parser.frame_stream_decode / _stream_data_get and msfmt_get / dsfmt_get as they are now:
+    the regenerated abstract syntax run by the PyLite interpreter (standard types, no user
+    types), on a STREAM frame with payload [data] and a Device object whose channels are [cfgs]
+    ([cfg_ok]: 0 <= vdim <= 255 and 0 <= mlen, the ranges of the channel-info bytes; [lay_of]
+    their layout in the model above).  The result is the model's, sample for sample, value for
+    value ([sample_pv]: integers, floats as the dyadic rational of the bit pattern, fixed point
+    as rn53(raw)/2^k, text); the one exception is text that is not valid UTF-8, which the source
+    decodes with replacement characters and PyLite refuses ("lossy decode", fail-closed). *)
+Section OnSource.
+Import ListNotations PyLite Src_all Src_serialframe_proofs Src_stream_proofs Src_stream_model.
+Open Scope string_scope.
+Open Scope list_scope.
+
+Theorem C04_decode_src : forall n dd cfgs data,
+  Forall cfg_ok cfgs ->
+  stream_rel (Stream.stream_decode (lay_of cfgs) [] data)
+             (call_method program (3 + List.length data + n) parser "frame_stream_decode"
+                          [stream_frame data; dev_obj dd cfgs]).
+Proof. exact frame_stream_decode_model_fuel. Qed.
+
+Theorem C04_decode_ok_src : forall n dd cfgs data fl ss,
+  Forall cfg_ok cfgs ->
+  Stream.stream_decode (lay_of cfgs) [] data = Frame.Ok (Some (fl, ss)) ->
+  existsb sample_lossy ss = false ->
+  call_method program (3 + List.length data + n) parser "frame_stream_decode"
+              [stream_frame data; dev_obj dd cfgs] =
+  PyLite.Ok (stream_obj fl (map sample_pv ss), parser).
+Proof. exact frame_stream_decode_ok. Qed.
+
+(** the payload theorem on the source: flags byte + any sequence of well-formed encoded samples *)
+Theorem C04_payload_src : forall n dd cfgs flags ws,
+  Forall cfg_ok cfgs ->
+  Forall (w_ok (lay_of cfgs) []) ws ->
+  existsb sample_lossy (map w_out ws) = false ->
+  call_method program (3 + List.length (flags :: List.concat (map w_bytes ws)) + n) parser "frame_stream_decode"
+              [stream_frame (flags :: List.concat (map w_bytes ws)); dev_obj dd cfgs] =
+  PyLite.Ok (stream_obj (Z.of_N flags) (map sample_pv (map w_out ws)), parser).
+Proof.
+  intros n dd cfgs flags ws F W L.
+  apply frame_stream_decode_ok; [exact F| |exact L].
+  apply stream_decode_payload. exact W.
+Qed.
+
+Theorem C04_tables_src : forall n,
+  (forall mlen, 0 <= mlen -> call_function program (1 + n) "msfmt_get" [PInt mlen] = PyLite.Ok (PStr (Stream.msfmt_get mlen))) /\
+  (forall dtype, call_function program (1 + n) "dsfmt_get" [PInt dtype; PNone] = emb_dsfmt (Stream.dsfmt_get dtype [])).
+Proof. intros n. split; [intros; now apply msfmt_get_spec|intros; apply dsfmt_get_spec]. Qed.
+End OnSource.
+
 Example C04_example :
   stream_decode [mkChanL 8 1 0 0; mkChanL 12 1 2 1] []
     [1; 0; 255; 255; 255; 255; 255; 255; 255; 255; 1; 128; 1; 7; 0]%N =
@@ -143,3 +193,5 @@ Print Assumptions C04_float32.
 Print Assumptions C04_float64.
 Print Assumptions C04_char_total.
 Print Assumptions C04_none.
+Print Assumptions C04_decode_src.
+Print Assumptions C04_payload_src.
